@@ -250,8 +250,10 @@ class SolutionTracks(Tracks):
             or len(annotator.tracklet_id_to_nodes[track_id]) == 0
         ):
             return None, None
-        candidates = annotator.tracklet_id_to_nodes[track_id]
-        candidates.sort(key=lambda n: self.get_time(n))
+        # sort a copy: a query must not reorder the annotator's own lookup list
+        candidates = sorted(
+            annotator.tracklet_id_to_nodes[track_id], key=lambda n: self.get_time(n)
+        )
 
         pred = None
         succ = None
